@@ -3,6 +3,7 @@
 package main
 
 import (
+	"runtime"
 	"encoding/json"
 	"flag"
 	"fmt"
@@ -10,7 +11,7 @@ import (
 	"time"
 
 	"github.com/openconfig/ygot/zzverif/core"
-	_ "github.com/openconfig/ygot/zzverif/props"
+	"github.com/openconfig/ygot/zzverif/props"
 )
 
 func main() {
@@ -22,8 +23,17 @@ func main() {
 	replay := flag.String("replay", "", "replay file")
 	budget := flag.Duration("budget", 0, "internal deadline (0 = tier default)")
 	dump := flag.String("dump", "", "debug: dump atoms of package")
+	racePass := flag.Int("race-pass", 0, "C21: run the free-running goroutine pass this many rounds (binary built with -race) and exit")
 	out := flag.String("out", "", "directory for evidence/ and replays/ (default: verif dir)")
 	flag.Parse()
+	if *racePass > 0 {
+		for _, gmp := range []int{2, 4, 16} {
+			runtime.GOMAXPROCS(gmp)
+			props.C21RaceBodies(*racePass)
+		}
+		fmt.Println("race-pass completed")
+		return
+	}
 	if *dump != "" {
 		p := core.PkgByName(*dump)
 		for _, a := range p.Atoms() {
